@@ -155,8 +155,14 @@ def gen_traces(ctx: Ctx, seed: int, n_traces: int, lo: int, hi: int, insert_bias
                     ev.update(sn=l0[0], so=l0[1]) if rng.random() < 0.5 else ev.update(dn=l0[2], do=l0[3])
                     if rng.random() < 0.3:
                         ev.update(sn=l0[0], so=l0[1], dn=l0[2], do=l0[3])
-            elif r < 0.62:
+            elif r < 0.60:
                 ev = {"a": "AddOrderLink", "i": i, "sn": rng.choice(live[i]), "dn": rng.choice(live[i])}
+            elif r < 0.62:
+                # metadata is set up before any insertion only: the copies made by insert_hugr share their metadata dictionaries with
+                # the inserted HUGR, so a later in-place edit shows in both - a behaviour outside what C04 / C08 quantify over
+                if any(x["a"] == "InsertHugr" for x in tr):
+                    continue
+                ev = {"a": "SetMeta", "i": i, "n": rng.choice(live[i] + [0]), "m": rng.choice(["none", "m", "u"])}
             elif r < 0.80:
                 if links[i] and rng.random() < 0.85:
                     l0 = rng.choice(links[i])
